@@ -15,6 +15,7 @@ package main
 import (
 	"bytes"
 	"fmt"
+	"strings"
 
 	"github.com/nspcc-dev/neo-go/pkg/core/transaction"
 	"github.com/nspcc-dev/neo-go/pkg/io"
@@ -102,10 +103,12 @@ func bigMessage(g *G, sr bool) *network.Message {
 	case 2:
 		t := g.tx()
 		t.Script = fill(1025 + r.Intn(3000))
-		w := io.NewBufBinWriter()
-		t.EncodeBinary(w.BinWriter)
-		t2, err := transaction.NewTransactionFromBytes(w.Bytes())
-		if w.Err != nil || err != nil {
+		tb, err := encBytes(t)
+		if err != nil {
+			return network.NewMessage(network.CMDTX, g.tx())
+		}
+		t2, err := transaction.NewTransactionFromBytes(tb)
+		if err != nil {
 			return network.NewMessage(network.CMDTX, g.tx())
 		}
 		return network.NewMessage(network.CMDTX, t2)
@@ -155,10 +158,12 @@ func hardMessage(g *G, sr bool) (*network.Message, string) {
 		n = network.CompressionMinSize + 1 + r.Intn(80) // just over the size
 	}
 	reTx := func(t *transaction.Transaction) *transaction.Transaction {
-		w := io.NewBufBinWriter()
-		t.EncodeBinary(w.BinWriter)
-		t2, err := transaction.NewTransactionFromBytes(w.Bytes())
-		if w.Err != nil || err != nil {
+		b, err := encBytes(t)
+		if err != nil {
+			return nil
+		}
+		t2, err := transaction.NewTransactionFromBytes(b)
+		if err != nil {
 			return nil
 		}
 		return t2
@@ -268,6 +273,9 @@ func (rn *runner) msgObjRun(k int, r *prng.R, sr bool, fresh *network.Message, s
 		if d, err := decodeMessage(sr, freshZ); err != nil || showMessage(d) != want {
 			lz4ok = false
 			o.Count("msgobj:lz4-refused")
+			if err == nil || !strings.Contains(err.Error(), "lz4:") {
+				o.Fail("message-reencode", k, "the compressed frame of a fresh valid message (command %#x, payload %d bytes, sent %d bytes) does not decode to it: %v", byte(fresh.Command), len(body), len(freshZ), err)
+			}
 		}
 		// how much LZ4 gains on this payload (sent bytes vs payload bytes)
 		if _, _, rawZ, ok := frameParts(freshZ); ok {
@@ -369,7 +377,9 @@ func (rn *runner) msgObjRun(k int, r *prng.R, sr bool, fresh *network.Message, s
 			// only thing between the two is network.compress / decompress (their output differs from call to call), i.e.
 			// the known LZ4 decoder defect
 			lz4class := false
-			if !plain && flags&1 != 0 {
+			// (only the LZ4 library's own refusal counts: any other decoding error of a compressed frame — a size that
+			// does not match the header, a truncated block — is the node's framing)
+			if !plain && flags&1 != 0 && err != nil && strings.Contains(err.Error(), "lz4:") {
 				if pf, e2 := network.NewMessage(fresh.Command, fresh.Payload).BytesCompressed(false); e2 == nil {
 					if pd, e3 := decodeMessage(sr, pf); e3 == nil && showMessage(pd) == want {
 						lz4class = true
